@@ -31,8 +31,8 @@ def model_check(ctx):
     ctx.assumptions += [
         "the JSON encoder/decoder itself (json.dumps/loads, float repr round trip) is NOT modelled in TLA+; it is exercised by the conformance runs only",
         "Place is treated as a deterministic function of the placement-read fields (JsonRTDefs!ClassFields); both setups are placed with the same PRNG key in the same process",
-        "scenes: uniform 50 nm grid (float32/float64) or an explicit RectilinearGrid, volume 12x12x10, boundaries from BoundaryConfig (pml/pec/pmc/periodic), "
-        "UniformMaterialObject (isotropic, diagonal, full-tensor, magnetic, conductive, Lorentz/Drude dispersive materials), Sphere, ExtrudedPolygon, Cylinder (one designated scene), "
+        "scenes: uniform 50 nm grid (fields float32/float64) or an explicit RectilinearGrid with float64 edges, volume 12x12x10, boundaries from BoundaryConfig (pml/pec/pmc/periodic), "
+        "UniformMaterialObject (isotropic, diagonal, full-tensor, magnetic, conductive, Lorentz/Drude dispersive materials), Sphere, ExtrudedPolygon, Cylinder (random scenes + one designated scene), "
         "PointDipoleSource / UniformPlaneSource / GaussianPlaneSource with switches, Energy/Field/PoyntingFlux/Phasor detectors with switches, all five constraint kinds "
         "(position with real and grid margins, size with proportions/offsets/grid offsets, extension, grid coordinates, real coordinates)",
         "arrays are compared through SHA-1 fingerprints (dtype + shape + bytes) truncated to 31 bits; a collision could hide a difference with probability 2^-31 per array",
@@ -74,7 +74,7 @@ def gen_cases(ctx):
             else:
                 types["min_" + ax] = t
                 types["max_" + ax] = rng.choice(("pml", "pec", "pmc"))
-        grid = rng.choice(("uniform", "uniform", "rect32", "rect64"))
+        grid = rng.choice(("uniform", "uniform", "rect64"))     # float32 edge arrays: see notes/C31.md (dtype is not exported)
         src_kinds = [rng.choice(("dipole", "dipole", "uniform", "gauss")) for _ in range(rng.choice((1, 1, 2)))]
         if strict:
             types = {f: "pml" for f in FACES}
@@ -83,14 +83,20 @@ def gen_cases(ctx):
         an = all(k == "dipole" for k in src_kinds)
         objs = []
         for i in range(rng.choice((2, 3, 4))):
-            k = "box" if strict else rng.choice(("box", "box", "sphere", "poly"))
+            k = "box" if strict else rng.choice(("box", "box", "sphere", "poly", "cyl"))
             o = {"kind": k, "name": f"m{i}", "order": rng.choice((0, 0, 1, 3)), "pos": _pos(rng)}
             if strict and o["pos"]["how"] == "real":
                 o["pos"]["how"] = "rel"
+            if i == 0 and s % 3 == 0:
+                k = o["kind"] = "box"                   # every third scene has a conductive box for sure
             if k == "box":
                 o.update(mat=_mat(rng, True, an), size=rng.choice(("grid", "real", "rel", "extend")), shape=[rng.randrange(1, 4) for _ in range(3)])
+                if i == 0 and s % 3 == 0:
+                    o["mat"]["kind"] = "condiso" if not an or s % 2 else "cond"
             elif k == "sphere":
                 o.update(mats=[_mat(rng, False, an), _mat(rng, False, an)], r=[rng.choice((1.0, 1.5, 2.0)) for _ in range(3)], pick=rng.randrange(2))
+            elif k == "cyl":
+                o.update(mats=[_mat(rng, False, an)], axis=rng.randrange(3), r=rng.choice((1.0, 1.5, 2.0)), len=rng.choice((1, 2, 3)))
             else:
                 o.update(mats=[_mat(rng, False, an)], axis=rng.randrange(3), verts=rng.choice(([[-2, -1], [2, -1], [2, 1], [0, 0], [-2, 1]], [[-1, -1.5], [1, -1.5], [0, 1.5]])), len=rng.choice((1, 2)))
             objs.append(o)
@@ -107,7 +113,7 @@ def gen_cases(ctx):
         yield {"id": f"rt-{s}", "grid": grid, "dtype": rng.choice(("f32", "f64")), "courant": rng.choice((0.99, 0.7)), "time": rng.choice((30e-15, 45e-15)),
                "thick": rng.choice((2, 3)), "types": types, "vol_mat": _mat(rng, False, an), "vol_by": rng.choice(("grid", "real")),
                "objs": objs, "srcs": srcs, "dets": dets, "via": "setup" if strict else "raw", "cyl": None}
-    # designated Cylinder scenes (the other scenes stay Cylinder-free so that one class of item decides one scene)
+    # designated Cylinder scenes (a Cylinder could not be re-imported before /repo 7406267)
     for s in range(1 if ctx.quick else 3):
         yield {"id": f"cyl-{s}", "grid": "uniform", "dtype": "f32", "courant": 0.99, "time": 30e-15, "thick": 2, "types": {f: "pml" for f in FACES},
                "vol_mat": {"kind": "iso", "eps": 2.0, "p": 1}, "vol_by": "grid", "objs": [], "srcs": [], "dets": [], "via": "raw",
@@ -210,6 +216,12 @@ def build(case):
             mats = {f"k{i}": _material(m) for i, m in enumerate(o["mats"])}
             r = o["r"]
             ob = fdtdx.Sphere(name=o["name"], radius=r[0] * DX, radius_y=r[1] * DX, radius_z=r[2] * DX, materials=mats, material_name=f"k{o['pick']}", placement_order=o["order"])
+            _pin(o["pos"], ob, vol, cons, uniform)
+        elif o["kind"] == "cyl":
+            prs = [None, None, None]
+            prs[o["axis"]] = o["len"] * DX
+            ob = fdtdx.Cylinder(name=o["name"], radius=o["r"] * DX, axis=o["axis"], partial_real_shape=tuple(prs), materials={"fib": _material(o["mats"][0]), "air": fdtdx.Material(permittivity=1.0)},
+                                material_name="fib", placement_order=o["order"])
             _pin(o["pos"], ob, vol, cons, uniform)
         else:
             mats = {"core": _material(o["mats"][0]), "clad": fdtdx.Material(permittivity=1.5)}
@@ -331,7 +343,7 @@ def observe(case):
     rec = {"id": case["id"], "via": case["via"], "stage": "ok", "err": "", "errcls": "", "a": a, "b": empty, "items": [],
            "n_objs": len(objs), "n_cons": len(cons), "classes": sorted({type(o).__name__ for o in objs} | {type(c).__name__ for c in cons}), "json_chars": 0}
     try:
-        cfg_f, objs_f, cons_f = build(case)          # a fresh, unplaced copy is what a user would export
+        cfg_f, objs_f, cons_f = cfg, objs, cons      # place_objects returns placed COPIES; these are still the unplaced user objects
         if case["via"] == "setup":
             s = JsonSetup(config=cfg_f, object_list=list(objs_f), constraints=list(cons_f), meta={"seed": 1}).dumps()
         else:
